@@ -43,7 +43,8 @@ def run_c16(ctx):
                 "65535/65536/70000, negatives, 2^31, 2^32, 2^63-1) x both sources through make_config + is_valid_config "
                 "in a child process; missing / unknown keys; seed strings of wrong length or alphabet; whole configurations: "
                 "product of per-setting classes x client_stats x persistence directory state (none/good/read-only/file/missing); non-trivial = "
-                "distinct (source, key, value) with the value outside the narrow type's range or at a documented bound")
+                "distinct (source, key, value) with the value outside the narrow type's range or at a documented bound; case variants of the "
+                "enabling spellings of client_stats in both sources; the real binary started with num_workers = 1 and cores + 3 from both sources, worker threads counted")
     vlib.prepare(ctx, need_bins=True)
     grid = [-70000, -256, -1, 0, 1, 2, 32, 49, 50, 51, 63, 64, 65, 100, 254, 255, 256, 257, 300, 1000, 8686, 65534, 65535,
             65536, 65537, 70000, 2**31 - 1, 2**31, 2**32 - 1, 2**32, 2**32 + 1, 2**63 - 1]
